@@ -947,4 +947,14 @@ impl Session {
     pub fn verif_files_extracted(&self) -> bool {
         self.files_extracted
     }
+
+    /// Peers listed by the tracker that were not tried yet.
+    pub fn verif_candidates(&mut self) -> &mut Vec<(String, [u8; PEER_ID_SIZE])> {
+        &mut self.candidates
+    }
+
+    /// The private `handle_tracker_cmd`.
+    pub async fn verif_handle_tracker_cmd(&mut self, cmd: TrackerCmd) {
+        self.handle_tracker_cmd(cmd).await
+    }
 }
